@@ -27,7 +27,12 @@ from mc.engine import exc_symptom, short_tb
 
 ID = "C11"
 RULE = ("product explorer over configurations x iteration horizons: a case is a trajectory group (member of the "
-        "explicit non-negative count family, holder dense/sparse, rank, starting guess, algorithm); inside, every "
+        "explicit non-negative count family - the all-zero tensor (empty operand) included -, tensor order 2..4 (5 in the "
+        "thorough tier), holder dense/sparse x storage dtype float64/integer, rank, starting guess, algorithm); the guess "
+        "family contains, wherever one is known in closed form, a maximiser of the likelihood itself ('mle': the "
+        "generating factors of an exact rank-R product; for rank 1 the normalised marginal counts), from which 'at least "
+        "as likely as the guess' is sharp; boolean storage is outside the scope (tensor.to_tenmat refuses non-numeric "
+        "data by a documented assertion; counts are numbers); inside, every "
         "option set of the group's slice of the algorithm's option lattice is one state sequence: the real cp_apr "
         "is re-run with maxiters = 1..K from the same guess under a virtual clock (stoptime = 0 ticks: horizons 1 "
         "and K only).  The base option set is run in every group, the complete lattice in the designated 'full' "
@@ -44,8 +49,13 @@ ASSUMPTIONS = [
     "reference Kruskal evaluation (einsum on the explicit factors) and the entrywise Poisson log-likelihood "
     "sum_{x!=0} x log m - sum m in mc/props/C11.py / mc/refmodel.py are correct; log-likelihoods are compared with "
     "1e-9*(1+|L|), -inf equals -inf; 'at least as likely as the guess' with 1e-8*(1+|L0|) (DESIGN 4.3)",
-    "data are small explicit non-negative integers held dense (F-ordered float64; int64 in the thorough tier) or "
-    "sparse (stored in F order; reversed in the thorough tier); guesses are explicit dyadic rationals",
+    "data are small explicit non-negative integers held dense (F-ordered; float64 or int64 storage, uint8 in the "
+    "thorough tier) or sparse (stored in F order, float64 or int64 values; int32 values and reversed storage order in "
+    "the thorough tier; the all-zero member is the library's empty sptensor); every integer dtype used holds the counts "
+    "exactly (asserted); guesses are explicit dyadic rationals, the 'mle' guess is computed from the reference array "
+    "(marginal sums / total, or the generating integer factors)",
+    "the rank-1 Poisson maximum-likelihood model is weight = total count, factors = marginal counts / total; a model "
+    "that reproduces the data exactly maximises the Poisson likelihood over all models",
     "ktensor.redistribute is called exactly once per mode per outer iteration by all three algorithms and by "
     "nothing else inside cp_apr (checked: the recorded mode sequence must be (0..N-1)* in every run)",
     "the virtual clock replaces the `time` module object inside pyttb.cp_apr only; one tick per call",
@@ -54,9 +64,11 @@ ASSUMPTIONS = [
     "pqnr aborts matching the known finding are excluded from the numeric verdicts (nothing is returned)",
 ]
 BOUNDS = {
-    "quick": "shapes (2,3),(3,4),(2,3,2),(3,3,3); 7 members per shape (generic counts, strictly positive, exact "
-             "integer rank-1 and rank-2 Kruskal products, empty first slice, all-zero fibre, binary); holders tensor, "
-             "sptensor; rank 1..3; guesses positive / all-zero first row of mode 0 / zero last weight / init='random' "
+    "quick": "shapes (2,3),(3,4),(2,3,2),(3,3,3),(2,3,2,2); 8 members per shape (generic counts, strictly positive, exact "
+             "integer rank-1 and rank-2 Kruskal products, empty first slice, all-zero fibre, binary, all-zero tensor); "
+             "holders tensor, sptensor (float64: every guess) and tensor:int64, sptensor:int64 (guesses positive, zero "
+             "row, random); rank 1..3; guesses positive / all-zero first row of mode 0 / zero last weight / likelihood "
+             "maximiser 'mle' (rank 1: every member with a count; rank R: the rank-R product member) / init='random' "
              "under np.random.seed(0) (rank 2 only); algorithms mu, "
              "pdnr, pqnr; K = 3 horizons; option lattice maxinneriters {1,2,10} x stoptol {1e-4,1e-10} x printitn {0,1} "
              "x printinneritn {0,1} x stoptime {default, 0 ticks} [x inexact {T,F} pdnr] [x lbfgsMem {1,3} pqnr] "
@@ -64,8 +76,9 @@ BOUNDS = {
              "lattice on the (2,3) generic member, rank 2, positive guess, both holders, all three algorithms; pdnr "
              "groups of rank >= 2 additionally run the base point with the undamped Hessian (mu0 = 0), which reaches "
              "the singular-Hessian and positive-predicted-reduction fall-back directions",
-    "thorough": "same shapes; 10 members per shape (second value seed of generic/positive, empty last slice of the "
-                "last mode added); holders additionally int64 tensor and sptensor stored in reverse order (with the positive, "
+    "thorough": "shapes additionally (2,2,3,2) and (2,2,2,2,2); 11 members per shape (second value seed of "
+                "generic/positive, empty last slice of the last mode added); holders additionally tensor:uint8, "
+                "sptensor:int32 (positive and zero-row guess) and sptensor stored in reverse order (with the positive, "
                 "zero-row and first random guess); guesses "
                 "additionally all-zero last row of the last mode, the all-ones guess and init='random' under seeds "
                 "{0,1} for every rank; K = 5 horizons; base + 5 "
@@ -76,7 +89,10 @@ BOUNDS = {
 CHUNK = 2
 
 KMAX = {"quick": 3, "thorough": 5}
-SHAPES = [(2, 3), (3, 4), (2, 3, 2), (3, 3, 3)]
+# orders 2..4 in the quick tier (order >= 4 is where Pi / the Khatri-Rao helper combine three or more factors), order 5
+# in the thorough tier (there ktensor.full, too, combines three factors per side)
+SHAPES = {"quick": [(2, 3), (3, 4), (2, 3, 2), (3, 3, 3), (2, 3, 2, 2)],
+          "thorough": [(2, 3), (3, 4), (2, 3, 2), (3, 3, 3), (2, 3, 2, 2), (2, 2, 3, 2), (2, 2, 2, 2, 2)]}
 ALGS = ("mu", "pdnr", "pqnr")
 TOL_OBJ = 1e-9
 TOL_MONO = 1e-8
@@ -101,6 +117,7 @@ def members(shape, tier, seed):
         {"fam": "emptyslice", "shape": sh, "mode": 0, "idx": 0, "vseed": seed},
         {"fam": "zerofibre", "shape": sh, "vseed": seed},
         {"fam": "binary", "shape": sh, "vseed": seed},
+        {"fam": "zero", "shape": sh, "vseed": seed},          # the empty operand: no count observed at all
     ]
     if tier == "thorough":
         out += [
@@ -153,13 +170,19 @@ def data_array(d):
         a = rm.arr(shape, [1.0 if cnt(l) > 1 else 0.0 for l in range(n)])
         if not a.any():
             a[(0,) * len(shape)] = 1.0
+    elif fam == "zero":
+        a = np.zeros(shape)
     else:
         raise ValueError(fam)
-    assert a.min() >= 0 and a.any() and np.array_equal(a, np.round(a))
+    assert a.min() >= 0 and (a.any() or fam == "zero") and np.array_equal(a, np.round(a))
     return a
 
 
-HOLDERS = {"quick": ("tensor", "sptensor"), "thorough": ("tensor", "sptensor", "tensor_int", "sptensor_rev")}
+# holder = kind [":" storage dtype]; "tensor_int" (= "tensor:int64") and "sptensor_rev" are kept as spelled in earlier replays
+HOLDERS = {"quick": ("tensor", "sptensor", "tensor:int64", "sptensor:int64"),
+           "thorough": ("tensor", "sptensor", "tensor:int64", "sptensor:int64", "tensor:uint8", "sptensor:int32",
+                        "sptensor_rev")}
+PLAIN_HOLDERS = ("tensor", "sptensor")            # float64 storage, F order: run with every guess
 
 
 def build_data(a, holder):
@@ -169,6 +192,10 @@ def build_data(a, holder):
         return ttb.tensor(np.asfortranarray(a.copy()))
     if holder == "tensor_int":
         return ttb.tensor(np.asfortranarray(a.astype(np.int64)))
+    if ":" in holder:
+        kind, dt = holder.split(":")
+        assert np.array_equal(a.astype(np.dtype(dt)).astype(float), a), (dt, "does not hold the counts exactly")
+        return H.build({"kind": kind, "shape": list(a.shape), "vals": rm.vals_f(a), "dtype": dt})
     subs, vals = H.sp_parts(a.shape, rm.vals_f(a))
     if holder == "sptensor_rev":
         subs, vals = subs[::-1], vals[::-1]
@@ -179,13 +206,40 @@ def is_sparse(holder):
     return holder.startswith("sptensor")
 
 
+def holds_exactly(a, holder):
+    """Reference-side admissibility of a storage dtype: it must represent every count of the member exactly."""
+    if ":" not in holder:
+        return True
+    dt = np.dtype(holder.split(":")[1])
+    return bool(np.array_equal(a.astype(dt).astype(float), a))
+
+
 # ---------------------------------------------------------------------------
 # starting guesses
 
-GUESSES = {"quick": ("pos", "zrow0", "zw", "rand0"), "thorough": ("pos", "zrow0", "zw", "zrowL", "ones", "rand0", "rand1")}
+GUESSES = {"quick": ("pos", "zrow0", "zw", "mle", "rand0"),
+           "thorough": ("pos", "zrow0", "zw", "mle", "zrowL", "ones", "rand0", "rand1")}
 
 
-def guess_parts(shape, R, kind, gseed=0):
+def mle_parts(d, R):
+    """A guess that already maximises the Poisson likelihood over the rank-R models, where one is known in closed form
+    (else None): the generating factors of an exact rank-R Kruskal product (model == data), and for R = 1 the normalised
+    marginal counts with the total count as weight.  'At least as likely as the guess' is sharp from there: the run may
+    not leave the maximiser."""
+    if d["fam"] == "lowrank" and d["rank"] == R:
+        return lowrank_parts(d)
+    a = data_array(d)
+    if R == 1 and a.any():
+        tot = float(a.sum())
+        N = a.ndim
+        return np.array([tot]), [a.sum(axis=tuple(m for m in range(N) if m != n)).reshape(-1, 1) / tot for n in range(N)]
+    return None
+
+
+def guess_parts(shape, R, kind, gseed=0, d=None):
+    if kind == "mle":
+        w, fs = mle_parts(d, R)
+        return np.array(w, dtype=float), [np.array(f, dtype=float) for f in fs]
     if kind.startswith("rand"):
         # init="random" under np.random.seed(s): the guess cp_apr draws, re-derived from the documented recipe
         st = np.random.get_state()
@@ -274,15 +328,22 @@ def _is_full(tier, seed, shape, d, holder, R, guess):
 
 def gen_cases(tier, seed):
     counters = {}       # (algorithm, sparse holder) -> running group index: the rotation walks each lattice in turn
-    for shape in SHAPES:
+    for shape in SHAPES[tier]:
         for d in members(shape, tier, seed):
+            fits = {h: holds_exactly(data_array(d), h) for h in HOLDERS[tier]}
             for R in (1, 2, 3):
                 for guess in GUESSES[tier]:
                     if guess.startswith("rand") and tier == "quick" and R != 2:
                         continue
+                    if guess == "mle" and mle_parts(d, R) is None:
+                        continue
                     for holder in HOLDERS[tier]:
-                        if holder in ("tensor_int", "sptensor_rev") and guess not in ("pos", "zrow0", "rand0"):
+                        if holder not in PLAIN_HOLDERS and guess not in ("pos", "zrow0", "rand0"):
                             continue
+                        if holder in ("tensor:uint8", "sptensor:int32") and guess == "rand0":
+                            continue
+                        if not fits[holder]:
+                            continue        # e.g. uint8 storage of a product member with counts above 255
                         for alg in ALGS:
                             gi = counters.get((alg, is_sparse(holder)), 0)
                             counters[(alg, is_sparse(holder))] = gi + 1
@@ -402,7 +463,7 @@ def _run_apr(case, ctx):
         cfgs = select_cfgs(alg, sparse, case["cfgs"], case["gi"], case.get("part"))
         if case.get("probe_mu0"):
             cfgs = cfgs + [dict(BASE, precompinds=True, inexact=case["gi"] % 2 == 0, mu0=0.0)]
-    w0, f0 = guess_parts(shape, R, gkind, case.get("gseed", 0))
+    w0, f0 = guess_parts(shape, R, gkind, case.get("gseed", 0), d)
     L0 = ref_loglik(a, w0, f0)
     group_nontrivial = False
 
